@@ -259,6 +259,7 @@ pub fn duplicate_info_documents() -> Vec<Doc> {
             let _ = b2;
             for mid in [&b""[..], b"7:comment2:hi", b"1:zd4:infoi1ee"] {
                 for (order, first, second) in [("AB", a, b), ("BA", b, a)] {
+                  for (k1, k2) in [(&b"4:info"[..], &b"4:info"[..]), (b"4:info", b"04:info"), (b"04:info", b"4:info"), (b"004:info", b"04:info")] {
                     let mut second2 = second.clone();
                     // second occurrence gets another name (only for variants whose name is plain)
                     if let Some(pos) = second2.windows(9).position(|w| w == b"4:name1:n") {
@@ -266,13 +267,15 @@ pub fn duplicate_info_documents() -> Vec<Doc> {
                     } else {
                         continue;
                     }
-                    let mut bytes = b"d8:announce3:URL4:info".to_vec();
+                    let mut bytes = b"d8:announce3:URL".to_vec();
+                    bytes.extend_from_slice(k1);
                     bytes.extend_from_slice(first);
                     bytes.extend_from_slice(mid);
-                    bytes.extend_from_slice(b"4:info");
+                    bytes.extend_from_slice(k2);
                     bytes.extend_from_slice(&second2);
                     bytes.push(b'e');
-                    docs.push(Doc { bytes, desc: format!("duplicate info keys {}+{} order {} mid {}", an, bn, order, core::show(mid)) });
+                    docs.push(Doc { bytes, desc: format!("duplicate info keys {}+{} order {} mid {} spelled {} / {}", an, bn, order, core::show(mid), core::show(k1), core::show(k2)) });
+                  }
                 }
             }
         }
@@ -332,7 +335,7 @@ pub fn run(ctx: &Ctx) -> Outcome {
     o.set("distinct_nontrivial", json!(accepted));
     o.set("accepted", json!(accepted));
     o.set("rejected", json!(rejected));
-    o.set("rule", json!("documents = one top-level dictionary {announce, any subset of the keys a:info/comment/infoo/z:info each with one of 7 value shapes (the string info itself in two length spellings, a string spelled 4:info, 3 containers with a nested key spelled info), info} in 4 key orders (sorted, reversed, info first, info last) x 10 info dictionaries (canonical, reversed keys, extra keys incl. a nested info key, leading-zero string lengths, multi-file, info key inside info, and four with zero-padded lengths in front of a name / pieces string / path that ends in 'e' bytes) x info key spelled 4:info or 04:info x 4 trailers after the dictionary x (for one sibling-shape combination per key subset) 6 leaders in front of it: nothing, non-dictionary values, decoy dictionaries without announce but with a top-level info key; plus the same family without announce (every one must be rejected); plus documents with the info key twice (info values pairwise, 3 separators, both orders). Plus every document without trailer once more without its last byte (cut-off .torrent): refused, or hashed like the complete one. All documents are distinct byte strings; non-trivial = accepted by Metainfo::from_bencode, for which the hash is compared."));
+    o.set("rule", json!("documents = one top-level dictionary {announce, any subset of the keys a:info/comment/infoo/z:info each with one of 7 value shapes (the string info itself in two length spellings, a string spelled 4:info, 3 containers with a nested key spelled info), info} in 4 key orders (sorted, reversed, info first, info last) x 10 info dictionaries (canonical, reversed keys, extra keys incl. a nested info key, leading-zero string lengths, multi-file, info key inside info, and four with zero-padded lengths in front of a name / pieces string / path that ends in 'e' bytes) x info key spelled 4:info or 04:info x 4 trailers after the dictionary x (for one sibling-shape combination per key subset) 6 leaders in front of it: nothing, non-dictionary values, decoy dictionaries without announce but with a top-level info key; plus the same family without announce (every one must be rejected); plus documents with the info key twice (info values pairwise, 3 separators, both orders, the two keys spelled 4:info / 04:info / 004:info in four combinations). Plus every document without trailer once more without its last byte (cut-off .torrent): refused, or hashed like the complete one. All documents are distinct byte strings; non-trivial = accepted by Metainfo::from_bencode, for which the hash is compared."));
     if (accepted as f64) < 0.4 * docs.len() as f64 {
         ctx.machinery_error(format!("vacuity: only {} of {} documents accepted", accepted, docs.len()));
     }
